@@ -227,7 +227,6 @@ scpi_bool_t SCPI_Parse(scpi_t * context, char * data, int len) {
                 context->param_list.cmd_raw.length = state->programHeader.len;
 
                 result &= processCommand(context);
-                cmd_prev = state->programHeader;
             } else {
                 /* place undefined header with error */
                 /* calculate length of errorenous header and trim \r\n */
@@ -236,6 +235,8 @@ scpi_bool_t SCPI_Parse(scpi_t * context, char * data, int len) {
                 SCPI_ErrorPushEx(context, SCPI_ERROR_UNDEFINED_HEADER, data, r2);
                 result = FALSE;
             }
+            /* the header path for the next unit comes from this unit, whether its header is defined or not */
+            cmd_prev = state->programHeader;
         }
 
         if (r < len) {
